@@ -34,8 +34,9 @@ def units(tier, seed):
     maxp = 5 if tier == "quick" else 6
     for n in range(1, maxp + 1):
         perms = list(itertools.permutations(range(n)))
-        for i in range(0, len(perms), 24):
-            u.append([{"k": "levels", "perm": list(p)} for p in perms[i : i + 24]])
+        for dt in ("str", "ordered", "unordered"):
+            for i in range(0, len(perms), 24):
+                u.append([{"k": "levels", "perm": list(p), "dtype": dt} for p in perms[i : i + 24]])
     for f in POOL:
         u.append([{"k": "swap", "f": f}])
     u.append([{"k": "shared-encoding"}])
@@ -119,6 +120,10 @@ def check_levels(case, acc):
     lv = [base[i] for i in perm]  # noqa: F841 (the formula refers to it)
     col = base + base[::-1] + base[:1]
     df = pd.DataFrame({"v": col, "y": np.arange(len(col)) * 1.0})
+    if case.get("dtype") == "ordered":  # the dtype has its own order: an explicit levels= must still win
+        df["v"] = pd.Categorical(df["v"], categories=base[::-1], ordered=True)
+    elif case.get("dtype") == "unordered":
+        df["v"] = pd.Categorical(df["v"], categories=base[1:] + base[:1])
     n = len(base)
     problems = []
 
